@@ -146,7 +146,7 @@ func genC01(w *World, r *Rng, tier string) {
 				w.Write(v, sk, valsFor(r, sk, dk, n))
 				m := lenChoice(r, w.views[v].Len())
 				w.Read(v, sk, valsFor(r, sk, sk, m))
-				// striped forms on the frame-aligned view
+				// striped forms
 				fr := w.views[v].Length()
 				w.WriteStriped(v, sk, randCols(r, sk, dk, ch, fr, true))
 				w.ReadStriped(v, sk, randCols(r, sk, sk, ch, fr, true))
@@ -160,11 +160,25 @@ func genC01(w *World, r *Rng, tier string) {
 					}
 					w.ReadStriped(v, sk, full)
 				}
-				// partial last frame: interleaved forms only
+				// partial last frame
 				if ch > 1 && w.views[v].Len() < w.views[v].Cap() && r.Bool() {
 					w.AppendSample(v, patt(dk, 7))
 					w.Write(v, sk, valsFor(r, sk, dk, lenChoice(r, w.views[v].Len())))
 					w.Read(v, sk, valsFor(r, sk, sk, lenChoice(r, w.views[v].Len())))
+					// striped forms on the partly filled last frame: covered as far as it exists
+					frp := w.views[v].Length()
+					w.WriteStriped(v, sk, randCols(r, sk, dk, ch, frp, true))
+					w.ReadStriped(v, sk, randCols(r, sk, sk, ch, frp, true))
+					fullCols := make([][]uint64, ch)
+					for c := range fullCols {
+						fullCols[c] = valsFor(r, sk, dk, frp)
+					}
+					w.WriteStriped(v, sk, fullCols)
+					for c := range fullCols {
+						fullCols[c] = valsFor(r, sk, sk, frp+1)
+					}
+					w.ReadStriped(v, sk, fullCols)
+					w.st.branch("striped-on-partial-frame")
 					// an Append of the missing samples makes the frames whole again (two partial frames
 					// joined): every form must then see the new frame count
 					if rem := w.views[v].Len() % ch; rem != 0 && r.Bool() {
